@@ -183,13 +183,14 @@ impl E2Run for Link {
                     }
                     if last {
                         // let every frame arrive, then end the run
-                        tokio::time::sleep(Duration::from_secs(400)).await;
+                        // (the slowest network needs up to ~66 s per maximal frame)
+                        tokio::time::sleep(Duration::from_secs(4000)).await;
                         ctx.shutdown.shut_down();
                     }
                 });
                 machines.push(new_machine_arc![pci, app]);
             }
-            run_machines(machines, 1_000_000).await
+            run_machines(machines, 10_000_000).await
         });
         let mut out = Outcome::default();
         finish(&state, &mut out);
